@@ -6,6 +6,10 @@ import I2N.Model.Rules
 import I2N.Lemmas.Rules
 import I2N.Extracted.GenRules
 import I2N.Lemmas.PyGenList
+import I2N.Extracted.GenRunner
+import I2N.Lemmas.RunnerGen
+import I2N.Model.TravStep
+import I2N.Lemmas.Trav
 namespace I2N.Props.C10
 deriving instance DecidableEq for Except
 open I2N.Rules I2N.Extracted.Rules I2N.Lemmas.Rules
@@ -646,5 +650,218 @@ example : (genDefaultRunDecision { name := "n.net1" } ⟨"sw", "net2"⟩ [] fals
     .error .runtimeError := by decide
 
 end Regenerated
+
+/-! ## Regenerated runner (translator tie of `TestRunner.run_test_node` and `TestRunner.all_results_ok`)
+
+`harness/pygen_pxrunner.py` cuts the coroutine `run_test_node` at its two awaits into straight-line segments and
+regenerates `Extracted/GenRunner.lean` from /repo's current source on every run; the awaits are the suspension points
+of the machine (`start` / `finish`).  The state of a segment is `RSt` = (`node.results`, `job.result.tests`,
+`node.prefix`). -/
+section RegeneratedRunner
+open I2N.Extracted.GenRunner I2N.Lemmas.RunnerGen
+
+local macro "seg_simp" " [" ts:Lean.Parser.Tactic.simpLemma,* "]" : tactic => `(tactic|
+  simp [readSt, modSt, removeM, warnInPlace, StateT.run, bind, StateT.bind, Except.bind, Except.map, pure, StateT.pure,
+    Except.pure, $ts,*])
+
+/-- **The verdict computation is the Python source of `all_results_ok`**: same Boolean or the same KeyError, for every
+list of job results.  No hypotheses. -/
+theorem allResultsOk_matches_source (tests : List JobRes) : genAllResultsOk tests = allResultsOk tests :=
+  genAllOkLoop_eq tests tests
+
+/-- **The segment in front of `await self.run_test_task(node)`**, for every state: the retry number is the number of
+shared results, the uid is `uidOf prefix k`, the UNKNOWN placeholder is appended to `node.results` IN THIS SEGMENT (before
+the suspension), the prefix is the retry prefix while the task runs. -/
+theorem runBefore_matches_source (nm : String) (k : Nat) (st : RSt) :
+    (genRunBefore nm k).run st =
+      .ok ((st.pfx, (k : Int), uidOf st.pfx k, nm, unknownOf nm),
+           { results := st.results ++ [unknownOf nm], job := st.job, pfx := uidOf st.pfx k }) := by
+  unfold genRunBefore
+  by_cases hk : k = 0
+  · subst hk
+    seg_simp [uidOf, unknownOf, unknownStatus]
+  · have : 0 < k := Nat.pos_of_ne_zero hk
+    seg_simp [uidOf, unknownOf, unknownStatus, retryInfix, this]
+
+/-- **One poll that found the record `x`** (the `try` body behind `next(...)` up to its `break`) is the model's `record`:
+duration rule (a PASS slower than 1.25 x the slowest earlier PASS of this copy becomes WARN, also in the job record),
+the result appended, the first placeholder removed (`removeMissing` = Python's ValueError when there is none), the
+status in lower case.  `x.name = name` is what the lookup guarantees (`lookupJob_name`). -/
+theorem pollFound_matches_source (name uid : String) (x : JobRes) (st : RSt) (hx : x.name = name) :
+    (genPollFound name uid (unknownOf name) x).run st =
+      (record st.results st.job name uid x).map
+        (fun r => (r.status, { results := r.results, job := r.job, pfx := st.pfx })) := by
+  unfold genPollFound record durationStatus
+  rw [show durationFactorDen = 4 from rfl, show durationFactorNum = 5 from rfl, ← pyMaxDefault_eq]
+  rcases st with ⟨results, job, pfx⟩
+  by_cases he : results = []
+  · subst he
+    seg_simp [hx, unknownOf, unknownStatus, passStatus, warnStatus]
+  · have hl : 0 < results.length := List.length_pos_iff.mpr he
+    have he' : results.isEmpty = false := by simpa using he
+    by_cases hw : x.status = "PASS" ∧ 5 * pyMaxDefault (List.map (fun r => r.time.getD 0)
+        (List.filter (fun r => r.status == "PASS") results)) x.time < 4 * x.time
+    · have hp : x.status = "PASS" := hw.1
+      have hw2 := hw.2
+      by_cases hc : ({ name := name, status := "UNKNOWN" } : Result) ∈ results
+      · seg_simp [hx, hc, hw2, hl, he', hp, unknownOf, unknownStatus, passStatus, warnStatus]
+      · seg_simp [hx, hc, hw2, hl, he', hp, unknownOf, unknownStatus, passStatus, warnStatus]
+    · by_cases hc : ({ name := name, status := "UNKNOWN" } : Result) ∈ results
+      · seg_simp [hx, hc, hw, hl, he', unknownOf, unknownStatus, passStatus, warnStatus]
+      · seg_simp [hx, hc, hw, hl, he', unknownOf, unknownStatus, passStatus, warnStatus]
+
+/-- **One iteration of the lookup loop**: the lookup is the model's `lookupJob` (FIRST record with that name AND uid);
+found = `record` and the loop is left with that status, not found = nothing changes and the coroutine sleeps.  In
+particular **a miss does not touch `node.results`: the UNKNOWN placeholder stays** (see `placeholder_stays_when_unreported`). -/
+theorem poll_matches_source (name uid : String) (st : RSt) :
+    (genPoll name uid (unknownOf name)).run st =
+      match lookupJob st.job name uid with
+      | some x => (record st.results st.job name uid x).map
+          (fun r => (some r.status, { results := r.results, job := r.job, pfx := st.pfx }))
+      | none => .ok (none, st) := by
+  have hh := genLookup_head st.job name uid
+  unfold genPoll
+  cases hl : genLookup st.job name uid with
+  | nil =>
+    rw [hl] at hh
+    rw [← hh]
+    seg_simp [hl]
+  | cons x rest =>
+    rw [hl] at hh
+    have hx := lookupJob_name hh.symm
+    rw [← hh]
+    have := pollFound_matches_source name uid x st hx.1
+    simp only [StateT.run] at this
+    seg_simp [hl, this]
+    cases record st.results st.job name uid x <;> rfl
+
+/-- the handler of a poll leaves `test_status = "error"` (the loop's `else` only logs): the value `settle` reports when
+the record never shows up -/
+theorem pollMiss_matches_source : genPollMiss = "error" := rfl
+
+/-- `for i in range(status_timeout)`: the default is the extracted constant the model polls with -/
+theorem statusTimeout_matches_source : genStatusTimeout = statusTimeout := rfl
+
+/-- **The segment behind the lookup loop**: the prefix is restored, the returned Boolean is the model's `statusBool`
+(`test_status not in ["error", "fail"]`). -/
+theorem runAfter_matches_source (p ts : String) (st : RSt) :
+    (genRunAfter p ts).run st = .ok (statusBool ts, { results := st.results, job := st.job, pfx := p }) := by
+  unfold genRunAfter statusBool
+  by_cases h : ts = "error" ∨ ts = "fail"
+  · rcases h with rfl | rfl <;> seg_simp [failingStatuses]
+  · have h1 : ts ≠ "error" := fun e => h (Or.inl e)
+    have h2 : ts ≠ "fail" := fun e => h (Or.inr e)
+    seg_simp [failingStatuses, h1, h2]
+
+/-- `beginExec` (the effect of `start`) is the generated first segment run on the copy's state: same retry counter,
+same uid, same results of the copy, job results untouched. -/
+theorem beginExec_matches_source (s : St) (i : Nat) (c : Copy) (hc : s.copies[i]? = some c) :
+    ∃ fr st', (genRunBefore c.name (sharedLen s.copies)).run { results := c.results, job := s.job, pfx := c.pfx } =
+        .ok (fr, st') ∧
+      (beginExec s i c).2 = { copy := i, k := fr.2.1.toNat, name := fr.2.2.2.1, uid := fr.2.2.1 } ∧
+      (beginExec s i c).1.copies = updCopy s.copies i (fun c' => { c' with results := st'.results }) ∧
+      (beginExec s i c).1.job = st'.job ∧ fr.2.2.2.2 = unknownOf c.name ∧ fr.1 = c.pfx := by
+  refine ⟨_, _, runBefore_matches_source _ _ _, ?_, ?_, rfl, rfl, rfl⟩
+  · simp [beginExec]
+  · simp only [beginExec]
+    have : ∀ (cs : List Copy) (j : Nat), cs[j]? = some c →
+        updCopy cs j (fun c => { c with results := c.results ++ [unknownOf c.name] }) =
+        updCopy cs j (fun c' => { c' with results := c.results ++ [unknownOf c.name] }) := by
+      intro cs
+      induction cs with
+      | nil => intro j _; rfl
+      | cons a as ih =>
+        intro j hj
+        cases j with
+        | zero => simp at hj; subst hj; rfl
+        | succ j => simp at hj; simp only [updCopy]; rw [ih j hj]
+    exact this _ _ hc
+
+/-- the generated segments compute: first execution (no retry suffix), third execution (`r2`), a slow PASS becomes WARN
+in the copy's results and in the job record, a record under another uid is not found, an unmapped status is a KeyError
+only when no acceptable record of that name precedes it -/
+example : (genRunBefore "t.net1" 0).run ⟨[], [], "3"⟩ =
+    .ok (("3", 0, "3", "t.net1", unknownOf "t.net1"), ⟨[unknownOf "t.net1"], [], "3"⟩) := by decide
+example : (genRunBefore "t.net1" 2).run ⟨[⟨"t.net1", "FAIL", some 1⟩], [], "3"⟩ =
+    .ok (("3", 2, "3r2", "t.net1", unknownOf "t.net1"),
+         ⟨[⟨"t.net1", "FAIL", some 1⟩, unknownOf "t.net1"], [], "3r2"⟩) := by decide
+example : (genPoll "t" "1r1" (unknownOf "t")).run ⟨[⟨"t", "PASS", some 10⟩, unknownOf "t"], [⟨"t", "1r1", "PASS", 13⟩], "1r1"⟩ =
+    .ok (some "warn", ⟨[⟨"t", "PASS", some 10⟩, ⟨"t", "WARN", some 13⟩], [⟨"t", "1r1", "WARN", 13⟩], "1r1"⟩) := by decide
+example : (genPoll "t" "1r1" (unknownOf "t")).run ⟨[unknownOf "t"], [⟨"t", "1", "PASS", 13⟩], "1r1"⟩ =
+    .ok (none, ⟨[unknownOf "t"], [⟨"t", "1", "PASS", 13⟩], "1r1"⟩) := by decide
+example : genAllResultsOk [⟨"a", "1", "FAIL", 1⟩, ⟨"a", "1r1", "PASS", 1⟩] = .ok true := by decide
+example : genAllResultsOk [⟨"a", "1", "PASS", 1⟩, ⟨"b", "2", "FAIL", 1⟩, ⟨"a", "1r1", "bogus", 1⟩] = .ok false := by decide
+example : genAllResultsOk [⟨"a", "1", "bogus", 1⟩, ⟨"a", "1r1", "PASS", 1⟩] = .error .keyError := by decide
+
+/-- **The unreported result on the SOURCE** (finding F-C10-2, reproduced on the real code by
+`tools/repro_unreported_placeholder.py`): when no record with this (name, uid) is in `job.result.tests` and none arrives
+during the sleeps, the lookup loop — whatever the number of remaining polls — ends with `test_status = "error"` and
+`node.results` is exactly what it was: the UNKNOWN placeholder appended in front of the task await is still there (the
+`remove` sits only in the branch that found the record). -/
+theorem placeholder_stays_when_unreported (env : Nat → List JobRes) (name uid : String)
+    (henv : ∀ j, lookupJob (env j) name uid = none) (n i : Nat) (st : RSt)
+    (hjob : lookupJob st.job name uid = none) :
+    ∃ job', (genPolls env name uid (unknownOf name) i n).run st =
+        .ok ("error", { results := st.results, job := job', pfx := st.pfx }) ∧
+      lookupJob job' name uid = none := by
+  induction n generalizing i st with
+  | zero => exact ⟨st.job, rfl, hjob⟩
+  | succ n ih =>
+    have hp := poll_matches_source name uid st
+    rw [hjob] at hp
+    have hj2 : lookupJob (st.job ++ env (i + 1)) name uid = none := by
+      unfold lookupJob at *
+      rw [List.find?_append, hjob, henv]; rfl
+    obtain ⟨job', h1, h2⟩ := ih (i + 1) { results := st.results, job := st.job ++ env (i + 1), pfx := st.pfx } hj2
+    refine ⟨job', ?_, h2⟩
+    simp only [StateT.run] at hp h1 ⊢
+    rw [genPolls]
+    seg_simp [hp, h1]
+
+/-- the hand model mirrors it (the model mirrors the code): `settle` of a result that never arrives leaves the copy's
+results — placeholder included — and reports `"error"`; so do `finish` and, in the traversal model, `resumeTest` (its
+`none` branch goes to `continueAfter s false` without touching the results) -/
+theorem settle_never_keeps_placeholder (results : List Result) (job : List JobRes) (name uid : String)
+    (hjob : lookupJob job name uid = none) :
+    settle results job name uid .never = .ok { results := results, job := job, status := "error", found := none } := by
+  simp [settle, Outcome.delay, arrive, hjob]
+
+example : ∃ job', (genPolls (fun _ => []) "t" "1" (unknownOf "t") 0 genStatusTimeout).run ⟨[unknownOf "t"], [], "1"⟩ =
+    .ok ("error", ⟨[unknownOf "t"], job', "1"⟩) ∧ lookupJob job' "t" "1" = none :=
+  placeholder_stays_when_unreported (fun _ => []) "t" "1" (fun _ => rfl) _ 0 ⟨[unknownOf "t"], [], "1"⟩ rfl
+
+/-! ### The traversal model's `startTest` against the generated first segment
+
+`Trav.Result` carries a ghost tag and a uid; `toRules` forgets them (an UNKNOWN placeholder has no `time_elapsed`). -/
+
+/-- adapter between the two result types (explicit: the traversal model is structured differently) -/
+def toRules (r : I2N.Trav.Result) : Result :=
+  { name := r.name, status := r.status, time := if r.status == "UNKNOWN" then none else some r.dur }
+
+/-- **`Trav.startTest` (test proper: phase plain or main) is the generated first segment of `run_test_node`** run on
+the node copy's state: the uid stored in the worker's program counter is the uid the source computes from the number of
+shared results, the results of the copy afterwards are — through `toRules` — the results the source leaves (placeholder
+appended before the suspension), and the step ends in the suspension.  Hypotheses: `n` / `w` are indices of the state. -/
+theorem startTest_matches_source (g : I2N.Trav.Graph) (s : I2N.Trav.State) (n w : Nat) (ph : I2N.Trav.Phase)
+    (dir : I2N.Trav.Dir) (hph : ph ≠ .pre) (hn : n < s.nodes.length) (hw : w < s.workers.length) :
+    ∃ fr st', (genRunBefore (g.node n).name (I2N.Trav.sharedResults g s n).length).run
+          { results := (s.nd n).results.map toRules, job := [], pfx := (g.node n).pfx } = .ok (fr, st') ∧
+      ((I2N.Trav.startTest g s n w ph dir).1.wd w).pc = .test n ph dir fr.2.2.1 s.nextTag 0 ∧
+      ((I2N.Trav.startTest g s n w ph dir).1.nd n).results.map toRules = st'.results ∧
+      (∃ evs, (I2N.Trav.startTest g s n w ph dir).2 = (evs, .suspend)) := by
+  have hp : (ph == I2N.Trav.Phase.pre) = false := by cases ph <;> first | rfl | exact absurd rfl hph
+  refine ⟨_, _, runBefore_matches_source _ _ _, ?_, ?_, ?_⟩
+  · have hw' : s.workers[w]? = some s.workers[w] := List.getElem?_eq_getElem hw
+    simp [I2N.Trav.startTest, hp, I2N.Trav.State.setWd, I2N.Trav.State.setNd, I2N.Trav.State.wd,
+      hw', I2N.Trav.uidOf, uidOf, retryInfix]
+  · have hn' : s.nodes[n]? = some s.nodes[n] := List.getElem?_eq_getElem hn
+    simp [I2N.Trav.startTest, hp, I2N.Trav.State.setWd, I2N.Trav.State.setNd, I2N.Trav.State.nd,
+      hn', toRules, unknownOf, unknownStatus]
+  · simp only [I2N.Trav.startTest, hp, Bool.false_eq_true, if_false]
+    exact ⟨_, rfl⟩
+
+example : toRules { name := "t", status := "UNKNOWN", uid := "", tag := 3 } = unknownOf "t" := by decide
+
+end RegeneratedRunner
 
 end I2N.Props.C10
